@@ -153,7 +153,15 @@ func init() {
 			return r
 		},
 		Covers: map[string][]string{"VH_C01_reads": {"end"}, "VH_C01_step": {"end"}},
-		Bounds: map[string]string{"quick": "TBD", "thorough": "TBD"},
+		Bounds: map[string]string{
+			"quick":    "pre-state: 0..2 pairs (0..1 for two/three-key commands), keys 1..2 arbitrary bytes, values 1 arbitrary byte, both bookkeeping keys present with arbitrary 64-bit values; operation keys/bounds 0..2 bytes incl. empty, wildcard and inverted ranges; all flag combinations; log index 1..64 (one varint class) plus one instance with any 64-bit index; batches/sequences of 2 elements; unwind 32",
+			"thorough": "as quick with 0..3 pairs and values of 0..1 bytes",
+		},
+		Outside: "larger tables, keys longer than 2 bytes (key-length effects are C12's), values >= 2 bytes and size-driven chunking of range-delete responses (4 MiB read chunk), Pebble internals (model M1: sorted map with batches/snapshots/iterators, bytewise order; inverted DeleteRange spans are no-ops)",
+		Assumptions: []string{
+			"Pebble behaves as the sorted-map model M1 (validated against real Pebble by native replay of counterexamples; see DESIGN 2/M1)",
+			"one inductive step from an arbitrary state per command kind; histories of any length follow by induction over the command sequence",
+		},
 	}
 	props["C09"] = &Property{
 		Title: "range reads sorted, bounded, truthful 'more', lossless paging",
@@ -170,7 +178,12 @@ func init() {
 			}
 		},
 		Covers: map[string][]string{"VH_C09_unary": {"end", "exactly-one-beyond-limit", "limit-equals-matches"}, "VH_C09_stream": {"end"}},
-		Bounds: map[string]string{"quick": "TBD", "thorough": "TBD"},
+		Bounds: map[string]string{
+			"quick":    "table of 0..2 pairs (keys 1..2 bytes, 1-byte values), arbitrary bounds (0..2 bytes, wildcard, inverted), limit 0..3 (less, equal, equal+1, greater than the matches), all flag variants; unary and streamed reads; unwind 32",
+			"thorough": "0..3 pairs, values 0..1 bytes, limit 0..4",
+		},
+		Outside: "size-based message cuts (values near 2 MiB): need symbolic-length values; gRPC transport; more pairs than the bound",
+		Assumptions: []string{"Pebble model M1", "the streamed read is consumed completely by one consumer"},
 	}
 	props["C03"] = &Property{
 		Title: "replicas converge: state independent of batching",
@@ -188,7 +201,12 @@ func init() {
 			return r
 		},
 		Covers: map[string][]string{"VH_C03_batching": {"end", "split"}},
-		Bounds: map[string]string{"quick": "TBD", "thorough": "TBD"},
+		Bounds: map[string]string{
+			"quick":    "logs of 2 entries (no-op or put, each with/without leader index) and of 3 no-op entries (each with/without leader index), every partition into consecutive apply calls vs one call, arbitrary bookkeeping in the pre-state, strictly ascending indices (steps 1..64)",
+			"thorough": "adds delete-range and transaction entries on a 0..1-pair pre-state, and 3-entry logs with puts",
+		},
+		Outside: "reopen / snapshot transfer between apply calls (content preservation there is Pebble's; regatta's side is C04/C08); logs longer than 3 entries",
+		Assumptions: []string{"Pebble model M1", "two replicas = the same deterministic state machine code run on equal states (model clone)"},
 	}
 	props["C10"] = &Property{
 		Title: "revisions follow commit order; linearizable reads",
@@ -206,6 +224,38 @@ func init() {
 			return r
 		},
 		Covers: map[string][]string{"VH_C10_revision": {"end"}, "VH_C10_readpath": {"end", "linearizable"}},
-		Bounds: map[string]string{"quick": "TBD", "thorough": "TBD"},
+		Bounds: map[string]string{
+			"quick":    "one mutation of each kind (put, delete, delete range, transaction with empty / writing / read-only taken branch) at an arbitrary log index (1..64; any 64-bit index for put and empty-branch transaction), followed by a second mutation; 1-byte keys and values",
+			"thorough": "any 64-bit index for every kind",
+		},
+		Outside: "that dragonboat's SyncRead is linearizable and that proposals are totally ordered (model M2 assumes it); concurrent clients beyond the total order",
+		Assumptions: []string{"M2: a proposal is applied by the real FSM.Update at the next log index and its Result returned; reads call the real FSM.Lookup", "Pebble model M1"},
+	}
+	props["C02"] = &Property{
+		Title: "transactions: one branch, in order, all or nothing",
+		Instances: func(tier string) []*Instance {
+			fsm := "storage/table/fsm"
+			r := []*Instance{
+				{Pkg: fsm, Func: "VH_C02_txn", Args: []int64{1, 1, 1, 1}, Unwind: 32},
+				{Pkg: fsm, Func: "VH_C02_txn", Args: []int64{0, 2, 0, 1}, Unwind: 32},
+				{Pkg: fsm, Func: "VH_C02_txn", Args: []int64{2, 0, 1, 1}, Unwind: 32},
+				{Pkg: fsm, Func: "VH_C02_readonly", Args: []int64{1, 2, 1}, Unwind: 32},
+				{Pkg: fsm, Func: "VH_C02_vacuity", Expect: "violated"},
+			}
+			if tier == "thorough" {
+				r = append(r, &Instance{Pkg: fsm, Func: "VH_C02_txn", Args: []int64{0, 2, 1, 1}, Unwind: 32},
+					&Instance{Pkg: fsm, Func: "VH_C02_txn", Args: []int64{2, 0, 2, 1}, Unwind: 32},
+					&Instance{Pkg: fsm, Func: "VH_C02_txn", Args: []int64{1, 1, 2, 2}, Unwind: 32},
+					&Instance{Pkg: fsm, Func: "VH_C02_readonly", Args: []int64{2, 2, 2}, Unwind: 32})
+			}
+			return r
+		},
+		Covers: map[string][]string{"VH_C02_txn": {"end"}, "VH_C02_readonly": {"end"}},
+		Bounds: map[string]string{
+			"quick":    "transactions with (1 predicate, 1 success op), (0 predicates, 2 success ops), (2 predicates, 0 success ops), each with a one-put failure branch; predicates: any result enum, with/without value target, single key or range; ops: range / put / delete(range) with all flags; pre-state 0..1 pairs (0 for the two-op shape), 1-byte keys/values; read-only transaction (1 predicate) on 0..2 pairs",
+			"thorough": "adds two ops on a 0..1-pair state, two predicates on 0..2 pairs, 2-byte keys",
+		},
+		Outside: "longer predicate / operation lists; operations with an empty oneof (C16); crash atomicity (C04: one Pebble batch, one commit)",
+		Assumptions: []string{"Pebble model M1 (indexed batch reads see earlier writes of the batch)", "predicate semantics as documented in docs/user_guide/transactions.md and the property statement"},
 	}
 }
